@@ -229,6 +229,37 @@ def r12_1_path(chk, uc, ev, D, I, rules, tag, syms, node, first=True):
                fingerprint=f"DD:{i}{j}{tag}", expected=str(want), found=str(s.rewrite(rules))[:200])
 
 
+def _adjugate_inverse(term: P, vec: P) -> bool:
+    """inverse = column_stack((r1 x r2, r2 x r0, r0 x r1)) / det(M) for the matrix M with rows r0, r1, r2: the adjugate formula, exact for
+    every orientation (the second spelling of 'the numerical inverse of the given matrix')."""
+    M = {vec.key(), "self.direct"}
+    det = None
+    for d in find_atoms(term, lambda t: t[0] == "call" and call_name(t) == "numpy.linalg.det" and t[2] and t[2][0].key() in M):
+        det = P.atom(d)
+    if det is None:
+        return False
+    num = term * det
+    from .generic import stack_columns
+    cols = stack_columns(num)
+    if not cols or len(cols) != 3:
+        return False
+    want = [(1, 2), (2, 0), (0, 1)]
+    for c, (i, j) in zip(cols, want):
+        a = c.as_atom()
+        if not (a and a[0] == "call" and call_name(a) == "numpy.cross" and len(a[2]) == 2):
+            return False
+        rows = []
+        for x in a[2]:
+            xa = x.as_atom()
+            if not (xa and xa[0] == "sub" and xa[1].key() in M and len(xa[2]) in (1, 2) and xa[2][0].const_value() is not None
+                    and (len(xa[2]) == 1 or xa[2][1].key().startswith("(slice None None None)"))):
+                return False
+            rows.append(int(xa[2][0].const_value()))
+        if tuple(rows) != (i, j):
+            return False
+    return True
+
+
 def r12_3(chk, uc):
     q = "UnitCell.set_vectors"
     ev = uc.ev(q, opaque={"u_a", "u_b", "u_c"})
@@ -256,7 +287,7 @@ def r12_3(chk, uc):
     chk.ob("R12.3", UC, q, "direct is the given matrix and inverse its numerical inverse, on every path (a closed form in lengths and angles only "
            "holds for the standard orientation with positive diagonal)",
            st.get("self.direct") is not None and st["self.direct"].key() == vec.key() and bool(invs) and
-           all(e.value.key() in ("numpy.linalg.inv(self.direct)", f"numpy.linalg.inv({vec})") for e in invs),
+           all(e.value.key() in ("numpy.linalg.inv(self.direct)", f"numpy.linalg.inv({vec})") or _adjugate_inverse(e.value, vec) for e in invs),
            node=invs[0].node if invs else None, fingerprint="vectors-inverse",
            found=str([("" if not e.guards else "under " + str(e.guards[-1][0])[:60] + ": ") + str(e.value)[:80] for e in invs])[:300])
     L = st.get("self.lengths")
